@@ -238,7 +238,8 @@ class Obligation(object):
     def smt2(self, relaxed=False):
         s = z3.Solver()
         for h in self.hyps:
-            if relaxed and has_quantifier(h):
+            # cover (vacuity) queries look for a model: quantified hypotheses are left out, the answer is a sanity signal
+            if (relaxed or self.expect_sat) and has_quantifier(h):
                 continue
             s.add(h)
         if not self.expect_sat:
@@ -855,6 +856,13 @@ class Engine(object):
     def ref_fact(self, st, ty, z, key=None, path=()):
         """Heap well-formedness facts for a reference read from the heap: it denotes an allocated object,
         and whatever the un-overwritten part of the heap holds existed when that part was last havocked."""
+        if isinstance(ty, TupleT) and not isinstance(z, tuple):
+            # references embedded in a tuple value denote allocated objects too
+            srt = tuple_sort(ty)
+            for i, t in enumerate(ty.elems):
+                if is_reflike(t) or isinstance(t, TupleT):
+                    self.ref_fact(st, t, srt.accessor(0, i)(z))
+            return
         if is_reflike(ty):
             st.assume(z3.And(z >= 0, z < st.alloc + st.nalloc))
             self.coll_fact(st, ty, z)
@@ -1021,6 +1029,42 @@ class Engine(object):
         self.list_set_raw(st, r, z3.If(n.z > 0, n.z, I(0)), z3.K(z3.IntSort(), x))
         return r
 
+    def fresh_block(self, st, elem_ty, n):
+        """list of max(n, 0) pairwise distinct, freshly allocated, empty lists / dicts of type elem_ty"""
+        cnt = z3.If(n > 0, n, I(0))
+        base = z3.simplify(st.alloc + st.nalloc)
+        # the block [base, base + cnt) and the outer list after it
+        na = fresh('alloc', z3.IntSort())
+        st.assume(na == base + cnt)
+        st.alloc = na
+        st.nalloc = 0
+        r = fresh('blk', z3.IntSort())
+
+        def upd(key, val):
+            old = st.hget(key)
+            new = fresh('blk!' + key_name(key), old.sort())
+            st.assume(z3.ForAll([r], z3.Select(new, r) == z3.If(z3.And(r >= base, r < base + cnt), val, z3.Select(old, r)),
+                                patterns=[z3.Select(new, r)]))
+            st.hset(key, new)
+        upd(('type',), I(self.coll_tag(elem_ty)))
+        if isinstance(elem_ty, ListT):
+            upd(lkey(elem_ty.elem), I(0))
+            if elem_ty.elem in (STR, BYTES):
+                upd(self.ghost_key('joined', z3.StringSort()), S(''))
+            if elem_ty.elem == INT:
+                upd(self.ghost_key('sum', z3.IntSort()), I(0))
+        else:
+            has, val, size = dkeys(elem_ty.key, elem_ty.val)
+            upd(size, I(0))
+            upd(has, z3.K(sort_of(elem_ty.key), B(False)))
+        outer = self.new_list(st, elem_ty)
+        arr = fresh('blk!arr', z3.ArraySort(z3.IntSort(), z3.IntSort()))
+        j = fresh('j', z3.IntSort())
+        st.assume(z3.ForAll([j], z3.Implies(z3.And(0 <= j, j < cnt), z3.Select(arr, j) == base + j), patterns=[z3.Select(arr, j)]))
+        self.list_set_raw(st, outer, cnt, arr)
+        st.fresh_refs.append(base)
+        return outer
+
     def new_dict(self, st, kt, vt):
         r = self.new_ref(st)
         st.hset(('type',), z3.Store(st.hget(('type',)), r, I(self.coll_tag(DictT(kt, vt)))))
@@ -1101,6 +1145,9 @@ class Engine(object):
         if sv is None:
             if e.id in BUILTIN_TYPES:
                 yield st, SV(CLS, I(self.class_id(e.id)))
+                return
+            if e.id in ('next', 'len', 'int', 'str'):
+                yield st, SV(ANYFUNC, ('builtin', e.id))
                 return
             raise Unsupported('name %s' % e.id)
         yield st, sv
@@ -1485,6 +1532,16 @@ class Engine(object):
         if isinstance(src, ast.Call) and isinstance(src.func, ast.Name) and src.func.id == 'enumerate' and len(src.args) == 1:
             enum = True
             src = src.args[0]
+        fresh_elt = isinstance(e.elt, (ast.List, ast.Dict)) and not getattr(e.elt, 'elts', None) and not getattr(e.elt, 'keys', None)
+        if fresh_elt and not gen.ifs and isinstance(src, ast.Call) and isinstance(src.func, ast.Name) and src.func.id == 'range' \
+                and len(src.args) == 1 and not enum:
+            # [[] for _ in range(n)] / [{} for _ in range(n)]: n pairwise distinct fresh empty collections
+            hint = getattr(e, '_pyvc_elem', None)
+            if hint is None or not isinstance(hint, (ListT, DictT)):
+                raise Unsupported('comprehension of fresh collections needs a type hint')
+            for st1, nv in self.ev(src.args[0], st, ctx):
+                yield st1, self.fresh_block(st1, hint, self.coerce(nv, INT).z)
+            return
         for st1, seq in self.ev(src, st, ctx):
             seq = self.iter_source(ctx, st1, seq)
             if not isinstance(seq.ty, ListT):
